@@ -244,6 +244,47 @@ func (c *Ctx) errorPropagates(f *ssa.Function, cv *ssa.Call, ev ssa.Value) (bool
 		}
 		return false, "its error value is neither returned nor tested"
 	}
+	// the error is looked at before anything else is concluded: from the call, no return that can report success is
+	// reachable without crossing one of the edges on which the error was tested (`if chosen == nil { return noReady }`
+	// placed before `if err != nil` turns every failure - lock busy, unreadable log - into a success)
+	if cv.Block() != nil && len(nonNil) > 0 {
+		tested := map[edge]bool{}
+		for e := range nonNil {
+			tested[e] = true
+			tested[edge{e.From, 1 - e.Succ}] = true
+		}
+		// errors.Is / errors.As on this error are tests too (sentinel conversions)
+		for _, bf := range branchFacts(f) {
+			if bf.A.Kind != "bool" || len(bf.A.Env) > 0 {
+				continue
+			}
+			if cl, _ := callOf(bf.A.X); cl != nil {
+				if n := calleeFullName(&cl.Call); (n == "errors.Is" || n == "errors.As") && len(cl.Call.Args) > 0 && (strip(cl.Call.Args[0]) == ev || holdsValue(cl.Call.Args[0], ev)) {
+					tested[bf.E] = true
+				}
+			}
+		}
+		region := reach(cv.Block(), tested, nil)
+		for _, r := range returnsOf(f) {
+			if !region[r.Block()] || r.Block().Comment == "recover" || len(r.Results) == 0 {
+				continue
+			}
+			if r.Block() == cv.Block() && instrIndex(r) < instrIndex(cv) {
+				continue
+			}
+			if !canReachInstr(cv, r) {
+				continue
+			}
+			if c.definitelyFails(f, r) || derives(r) {
+				continue
+			}
+			v := returnedValue(r, len(r.Results)-1)
+			if strip(v) == ev || holdsValue(v, ev) {
+				continue // hands the error itself back
+			}
+			return false, fmt.Sprintf("the return at %s can report success before the error was looked at: every failure of the call (lock busy, unreadable log, I/O error) is reported as success there", c.Pos(r.Pos()))
+		}
+	}
 	// every return reachable from the non-nil edges must be a failure (an error that is definitely non-nil: derived
 	// from this one, freshly built, a sentinel, or another call's error on its own non-nil edge), except the recognised
 	// sentinel conversion; a successful retry of the same operation (nil edge of another call to the same callee)
